@@ -66,7 +66,8 @@ def reread_sites(root):
                         # gofmt puts a marker that led a declaration (or followed a `;`) on its own line / at the end of
                         # the previous line: the marked statement is then on the next line
                         midline = tag.split(":", 1)[-1] in ("imm-nested-sel", "imm-local-copy", "ptralias-write", "ptralias-inc", "ptralias-method", "ptralias-closure",
-                                                             "sibling-t-alias-write", "pkgo-promoted-method", "pkgo-promoted-method-value")
+                                                             "sibling-t-alias-write", "pkgo-promoted-method", "pkgo-promoted-method-value",
+                                                             "tonl-promoted-method", "tonl-promoted-value-method", "tonl-promoted-explicit", "imm-embedding-outer")
                         alone = not l[:p].strip() and not l[e + 2:].strip()
                         line = i + 1 if (alone or (midline and not l[e + 2:].strip())) else i
                         sites[tag.split(":")[0]] = (rel, line, tag.split(":", 1)[1] if ":" in tag else "")
